@@ -165,31 +165,31 @@ type c18Violation struct {
 }
 
 type c18Analysis struct {
-	fset  *gotoken.FileSet
-	pkg   *gotypes.Package
-	info  *gotypes.Info
-	funcs map[*gotypes.Func]*goast.FuncDecl // functions declared (with a body) in the generated files
-	fileOf map[*goast.FuncDecl]string
-	env   map[c18envKey]c18lv
-	ret   map[c18retKey]c18lv
-	insts map[c18inst]bool
+	fset    *gotoken.FileSet
+	pkg     *gotypes.Package
+	info    *gotypes.Info
+	funcs   map[*gotypes.Func]*goast.FuncDecl // functions declared (with a body) in the generated files
+	fileOf  map[*goast.FuncDecl]string
+	env     map[c18envKey]c18lv
+	ret     map[c18retKey]c18lv
+	insts   map[c18inst]bool
 	changed bool
 	collect bool
 
 	// current function instance
-	cur    *goast.FuncDecl
-	curFn  *gotypes.Func
-	ctx    string
+	cur     *goast.FuncDecl
+	curFn   *gotypes.Func
+	ctx     string
 	curStmt goast.Stmt
 
 	fieldOwner map[*gotypes.Var]string // field -> "Type.field"
 
 	// results
-	Violations   []c18Violation
-	seenViol     map[string]bool
+	Violations    []c18Violation
+	seenViol      map[string]bool
 	FieldsWritten map[string]bool
 	WriteClasses  map[string]int
-	seenWrite    map[gotoken.Pos]bool
+	seenWrite     map[gotoken.Pos]bool
 }
 
 func (a *c18Analysis) text(n goast.Node) string {
@@ -636,6 +636,13 @@ func (a *c18Analysis) evalCall(call *goast.CallExpr) []c18lv {
 						a.violation("calls a pointer-receiver method on shared storage", recvExpr)
 					}
 					a.join(c18envKey{ctx, rv.Origin()}, r)
+					if a.collect {
+						if b := rootIdentOf(recvExpr); b != nil && a.varOf(b) != nil && a.isRecv(a.varOf(b)) {
+							if f := a.firstField(recvExpr); f != "" {
+								a.FieldsWritten[f+" (through "+name+")"] = true
+							}
+						}
+					}
 					// what the callee stores through the pointer lands in recvExpr
 					a.assignTo(recvExpr, c18down(a.env[c18envKey{ctx, rv.Origin()}]))
 				case !calleePtr && argPtr:
@@ -1315,15 +1322,22 @@ func c18GenBatch(c *Ctx, root string, nParsers, nLexers int) []*c18Gen {
 	}
 	serial := 0
 	kinds := map[string]int{}
-	for attempt := 0; attempt < 4 && (len(out) < nParsers || (len(kinds) < 4 && nParsers >= 4)); attempt++ {
+	small := GenOpts{MaxTokens: 4, MaxRules: 4, MaxProds: 3, MaxTerms: 4, Sugar: true, Errors: true, Prec: true}
+	for attempt := 0; attempt < 8 && (len(out) < nParsers || (len(kinds) < 4 && nParsers >= 4)); attempt++ {
 		var specs []*GSpec
 		var names, loxs, gos []string
-		batch := nParsers*2 + 2
-		if attempt > 0 {
-			batch = 8 // a kind is still missing
+		batch := 2*(nParsers-len(out)) + 4
+		if len(out) >= nParsers {
+			batch = 8 // only a kind is still missing
+		}
+		if batch > 64 {
+			batch = 64
 		}
 		for i := 0; i < batch; i++ {
 			o := opts
+			if (serial/4)%2 == 1 {
+				o = small // large random grammars are mostly rejected for conflicts
+			}
 			o.Errors = serial%2 == 0
 			o.Prec = serial%3 == 0
 			s := GenSpec(c.Rng, o)
